@@ -17,6 +17,8 @@ Spec language (JSON lists):
                                                   [[name, descr(, subshape)], ..] (layout chosen by the variant)
   ["perm", arrayspec, axes]                       the VIEW base.transpose(axes) of the C-contiguous array written by arrayspec
                                                   (array / rawarray): its memory image is the base's, its values are permuted
+  ["longseq", "list"|"tuple", n, [exprs], [[pos, expr], ..]]   the sequence of n atoms exprs[i % len(exprs)], with the listed
+                                                  positions overridden (exprs may use np and struct)
   ["rettuple", base, i, n]                        i-th tasklet of return_tuple(n) applied to base
   ["iter", base, i, n]                            i-th element of iteratetask(base, n)
   ["sub", cls, inner]                             instance of a SUBCLASS of inner's type holding inner's content (built in the order
@@ -340,6 +342,15 @@ def realise(spec, rng, shared):
         else:
             a = np.frombuffer(bytes.fromhex(inner[3]), dtype=np.dtype(np_descr(inner[1]))).reshape(inner[2]).copy()
         return np.ascontiguousarray(a).transpose(spec[2])
+    if k == 'longseq':
+        import struct
+        env = {'np': np, 'struct': struct}
+        _, kind, n, base, over = spec
+        vals = [eval(e, env) for e in base]
+        xs = [vals[i % len(vals)] for i in range(n)]
+        for pos, e in over:
+            xs[pos] = eval(e, env)
+        return xs if kind == 'list' else tuple(xs)
     if k == 'objarray':
         _, shape, elems = spec
         a = np.empty(len(elems), dtype=object)
